@@ -30,7 +30,7 @@ PROPERTIES = {
         "jobs": [J("C05_kernel", quick={"cases": 12000, "shards": 16}, thorough={"cases": 600000, "shards": 16})],
     },
     "C01": {
-        "rule": "rapidcheck stateful histories on one live cell: start mesh from 6 construction families (+ random 1-to-3 / edge-split "
+        "rule": "rapidcheck stateful histories on one live cell: start mesh from 6 construction families, or (1/4) a hub with 1-3 lobes glued on its faces (connected sums: cycles of three edges that bound no face) (+ random 1-to-3 / edge-split "
                 "refinements, anisotropic scale, shear, radial bump, node noise, rigid motion, um and unit scale), then up to ~40 commands "
                 "drawn from {displace (noise / stretch / compress / bump / pinch), refresh normals, refine pass with or without swaps, "
                 "split / swap of the k-th edge, collapse of the k-th too-short edge, rebase, force-driven step}; the independent topology "
@@ -39,7 +39,7 @@ PROPERTIES = {
                 "distinct = hash of start mesh + command list.",
         "min_nontrivial": 100,
         "assumptions": ["positive-volume clause asserted only while the enclosed volume is >= 20 l_max^3 (a cell of the order of l_min "
-                        "legitimately collapses); histories end when the cell has fewer than 10 faces or a pass throws mesh_integrity_exception",
+                        "legitimately collapses); histories end when the cell has fewer than 10 faces or a command gives up with mesh_integrity_exception; the surface such a command leaves behind must still satisfy the combinatorial and bookkeeping clauses",
                         "cached normals may be one displacement old on faces a refiner command did not touch (that is how the solver calls it)"],
         "jobs": [J("C01_remesh", quick={"cases": 500, "shards": 16, "max_size": 50},
                    thorough={"cases": 12000, "shards": 16, "max_size": 80}),
@@ -141,7 +141,7 @@ PROPERTIES = {
     },
     "C06": {
         "rule": "rapidcheck: tissues of 2-7 cells (chain, cluster, cells inside an ECM shell, nucleus inside a cell, apart) of mixed classes, "
-                "icosphere level 1-2, um / unit / x12 scale, placed up to 3000 sizes from the origin; l_min, repulsion and adhesion "
+                "icosphere level 1-2, um / unit / x12 scale, placed up to 3000 sizes from the origin and (1/2 of the cases) a further 1e4-1e7 edge lengths away; l_min, repulsion and adhesion "
                 "cut-offs log-uniform in [0.05, 3] edge lengths; node normals either in the iteration-0 state or computed; for contact "
                 "models 0, 1, 2. Non-trivial = a node-face pair within the cut-off (independent kernel), tissue spanning >= 27 voxels, "
                 "and a contact force or a pair whose node and face lie in different voxels; distinct = hash of the case.",
@@ -166,7 +166,7 @@ PROPERTIES = {
     },
     "C08": {
         "rule": "rapidcheck stateful histories on a real solver: tissues of 2-7 level-1 cells in contact (3/4 all-epithelial, 1/4 mixed classes), "
-                "2-4 face types, 1-4 threads; commands Step(1|2|5 iterations), Shrink(k) (cell k scaled to 0.37 of its volume -> removed at the end "
+                "1-4 face types per cell type, 1-4 threads; the generated cell types and the tissue (as an input mesh) first go through the real simulation_initializer, which must accept 3+ face types and may refuse fewer; commands Step(1|2|5 iterations), Shrink(k) (cell k scaled to 0.37 of its volume -> removed at the end "
                 "of the next iteration), Inflate(k) (scaled above its division volume -> divided at the next multiple-of-5 iteration); invariants "
                 "after every iteration. Non-trivial = history containing a removal from the middle of the list followed by further iterations "
                 "AND at least one division; distinct = hash of the case.",
@@ -174,7 +174,7 @@ PROPERTIES = {
         "assumptions": ["couplings are only required to be valid after iterations that did not change the population (the next contact phase rebuilds "
                         "them before any use); stale use inside an iteration is caught by ASan / _GLIBCXX_ASSERTIONS at the point of use",
                         "a history ends when the solver reports an instability by exception (e.g. mesh refinement failed)",
-                        "epithelial types have the number of face types start-up admits (>= 2 for models 1/2, 3 for model 0)"],
+                        "a parameter set the real start-up validation refuses ends the case (counted); whatever it admits must run without an out-of-range face type"],
         "jobs": [J("C08_population", v, quick={"cases": 40, "shards": 5, "max_size": 40}, thorough={"cases": 1500, "shards": 5, "max_size": 60},
                    env={"VERIF_TMP": "/verif/build/run"}) for v in ("san", "san-cm0", "san-cm2")],
     },
